@@ -14,13 +14,17 @@ from . import core as K
 
 PER_FILE = 25
 INIT = {("Integer", "NilClass"): "vf_x1", ("Integer", "NilClass", "String"): "vf_x2",
-        ("Float", "String"): "vf_y1", ("Float", "NilClass", "String"): "vf_y2"}
-JSON_T = {"Integer": "Int", "NilClass": "NilClass", "String": "String", "Float": "Float"}
+        ("Float", "String"): "vf_y1", ("Float", "NilClass", "String"): "vf_y2", ("NilClass", "VfBar", "VfFoo"): "vf_x3"}
+JSON_T = {"Integer": "Int", "NilClass": "NilClass", "String": "String", "Float": "Float", "VfFoo": "VfFoo", "VfBar": "VfBar"}
 
 
 def config(work):
     ms = [{"name": n, "arguments": [], "return_type": {"type": [JSON_T[c] for c in names]}} for names, n in INIT.items()]
-    return K.build_config(work, "narrowcfg", extra={"zz_vf_narrow.json": {"frame": "Builtin", "class": "Integer", "instance_methods": ms}})
+    extra = {"zz_vf_narrow.json": {"frame": "Builtin", "class": "Integer", "instance_methods": ms}}
+    for cls in ("VfFoo", "VfBar"):
+        extra["zz_vf_%s.json" % cls.lower()] = {"frame": "Builtin", "class": cls, "instance_methods": [],
+                                                 "class_methods": [{"name": "new", "arguments": [], "return_type": {"type": [cls]}}]}
+    return K.build_config(work, "narrowcfg", extra=extra)
 
 
 def cond_src(c, sfx):
@@ -64,6 +68,7 @@ def emit(work, stats, consts, simulate=None, extra=None):
         progs.append(json.loads(json.loads(line)))
     c = dict(consts)
     c["EMIT"] = "TRUE"
+    c.setdefault("OBJECTS", "FALSE")
     r = C.run_tlc(work, "MCNarrow", "Narrow.cfg", workers=1, timeout=3000, stream=feed, heap="16g", consts=c,
                   simulate=simulate, extra=extra)
     if not r.ok:
@@ -114,6 +119,13 @@ def deviation(prog, si, open_keys=None):
             earlier = f["conds"][:-1] if f["branch"] == "elsif" else f["conds"]
             if any(len(c) > 1 for c in earlier):
                 return "Dev_AndElseComplement"
+    # `elsif !x.nil?` after a branch that tested x with is_a?: the elsif narrows from the pre-conditional type and only
+    # removes NilClass - the classes the earlier branch took stay in
+    if fr is not None and fr["branch"] == "elsif" and len(fr["conds"]) > 1:
+        last = fr["conds"][-1]
+        for a in last:
+            if a["k"] == "notnil" and any(b["k"] == "isa" and b["v"] == a["v"] for c in fr["conds"][:-1] for b in c):
+                return "Dev_ElsifNotNilKeepsEarlierClasses"
     # a variable narrowed only by an elsif condition is not restored at `end`
     if fr is not None and fr["branch"] == "after" and len(fr["conds"]) > 1:
         first = {a["v"] for a in fr["conds"][0]}
@@ -175,11 +187,13 @@ def run(tier, work):
     progs = []
     if tier == "quick":
         sets = [dict(MAXDEPTH=1, MAXIFS=1, ELSIF=T, UNLESS=T, STMT=T, RICH=F),
-                dict(MAXDEPTH=2, MAXIFS=2, ELSIF=F, UNLESS=F, STMT=F, RICH=F)]
+                dict(MAXDEPTH=2, MAXIFS=2, ELSIF=F, UNLESS=F, STMT=F, RICH=F),
+                dict(MAXDEPTH=1, MAXIFS=1, ELSIF=T, UNLESS=T, STMT=F, RICH=F, OBJECTS=T)]
     else:
         sets = [dict(MAXDEPTH=1, MAXIFS=1, ELSIF=T, UNLESS=T, STMT=T, RICH=T),
                 dict(MAXDEPTH=2, MAXIFS=2, ELSIF=F, UNLESS=T, STMT=F, RICH=F),
-                dict(MAXDEPTH=2, MAXIFS=2, ELSIF=T, UNLESS=F, STMT=F, RICH=F)]
+                dict(MAXDEPTH=2, MAXIFS=2, ELSIF=T, UNLESS=F, STMT=F, RICH=F),
+                dict(MAXDEPTH=2, MAXIFS=2, ELSIF=T, UNLESS=T, STMT=F, RICH=F, OBJECTS=T)]
     for cs in sets:
         progs += emit(work, stats, cs)
     if tier == "thorough":
